@@ -188,20 +188,178 @@ def gen_cfg(rng, idx, force=None):
     return cfg
 
 
+# ---------------------------------------------------------------------------------------
+# session histories: rejected calls, staged optimisation, alternative argument forms
+
+BAD_KINDS = ["cons-key", "cons-cat", "opt-key", "opt-type", "opt-kw", "sched-type", "sched-key", "sched-notype", "batch", "loss"]
+SESSION_FORCED = [
+    ["bad:cons-key:reset+opt", "stage-add"],            # reset + new optimizers + a misspelt constraint, then carry on
+    ["bad:opt-kw", "reset", "bad:opt-key:reset+opt"],  # a rejected optimizer configuration stays stored; the next reset meets it
+    ["stage-add", "stage-remove", "stage-add"],        # optimizers appear / disappear between stages, never a reset
+    ["bad:opt-type:opt", "stage-add", "reset"],
+    ["bad:sched-type:opt", "bad:batch", "sched"],
+    ["bad:loss:reset", "bad:cons-cat:reset+opt", "stage-add"],
+]
+
+
+def gen_session(rng, idx, force=None):
+    """a call history on one object: a first stage that optimises a SUBSET of the models, then events — calls the library
+    rejects (bad constraint key / category, optimizer key / type / keyword, scheduler key / type, batch size, loss type;
+    with and without reset=True and valid optimizer_params before the offending entry), optimizers added to / removed
+    from models between stages without a reset, valid resets, scheduler changes — each followed by plain continuation
+    calls.  Every call of the history is a split point."""
+    cfg = {"scan": rng.choice([[3, 3], [2, 3], [3, 2]]), "roi": [8, 8], "seed": rng.below(4), "rng_seed": 3 + rng.below(5),
+           "num_probes": rng.weighted([(1, 3), (2, 1)]), "obj_type": rng.choice(["complex", "pure_phase", "potential"]),
+           "num_slices": rng.weighted([(1, 4), (2, 1)]), "learn_tilt": rng.chance(0.15), "store": rng.choice(["zip", "dir"]),
+           "raw": True, "session": True}
+    if rng.chance(0.3):
+        cfg["load_device"] = "cpu"          # from_file(path, device="cpu"): one more .to() on the reloaded object
+    autograd = None if rng.chance(0.75) else False
+    t = rng.choice(OPT_TYPES)
+
+    def one_opt():
+        d = gen_opt(rng, t if rng.chance(0.7) else rng.choice(OPT_TYPES))
+        if rng.chance(0.2):     # alternative spellings of the type: upper case, the optimizer class itself
+            d["type"] = {"sgd": rng.choice(["SGD", "class:SGD"]), "adam": rng.choice(["Adam", "class:Adam"]), "adamw": rng.choice(["AdamW", "class:AdamW"])}[d["type"]]
+        return d
+    all_keys = ["object", "probe", "dataset"] if rng.chance(0.4) else ["object", "probe"]
+    opt = {k: one_opt() for k in all_keys}
+    active = [rng.choice(all_keys[:2])] if rng.chance(0.75) else list(all_keys[:2])       # first stage: a subset
+    cons = {}
+    if cfg["obj_type"] == "potential":
+        cons["object"] = {"positivity": False}
+    if rng.chance(0.3):
+        cons["probe"] = rng.choice([{"center_probe": True}, {"orthogonalize_probe": False}])
+    sk = rng.choice(SCHED_KINDS)
+    sched0 = {k: gen_sched(rng, sk) for k in active} if sk != "none" else None
+    first = {"n": rng.randint(1, 2), "opt": {k: opt[k] for k in active}, "sched": sched0, "cons": cons or None, "reset": True}
+    if rng.chance(0.15) and len(active) == len(all_keys[:2]):
+        first = {"n": first["n"], "opt_list": list(active), "opt_list_form": rng.choice(["list", "tuple"]), "cons": cons or None, "reset": True}
+    calls = [first]
+    poisoned = set()        # models whose stored optimizer configuration was rejected (every later reset meets it again)
+    was_poisoned = False
+    events = force or []
+    if not events:
+        pool = [("bad", 11), ("stage-add", 4), ("stage-remove", 2), ("reset", 2), ("sched", 1)]
+        events = [rng.weighted(pool) for _ in range(rng.randint(2, 3))]
+        if not any(e in ("bad", "stage-add") for e in events):
+            events[rng.below(len(events))] = rng.choice(["bad", "stage-add"])
+    for ev in events:
+        parts = ev.split(":")
+        c = None
+        if parts[0] == "bad":
+            kind = parts[1] if len(parts) > 1 else rng.choice(BAD_KINDS)
+            flags = parts[2] if len(parts) > 2 else rng.choice(["", "reset", "opt", "reset+opt", "reset+opt"])
+            c = {"n": 0, "bad": kind}
+            if "reset" in flags:
+                c["reset"] = True
+            okeys = list(active) if active else [all_keys[0]]
+            if "opt" in flags or kind.startswith("opt-"):
+                c["opt"] = {k: opt[k] for k in okeys}      # valid entries come first: they take effect before the rejection
+            # the model whose entry is rejected: mostly one that has an optimizer (or precedes one that has)
+            victim = rng.choice(active) if (active and rng.chance(0.7)) else rng.choice(all_keys)
+            if kind == "cons-key":
+                c["cons"] = {"object": {"tv_weight_xy": 0.0078125}, victim: {"no_such_constraint": 1}} if victim != "object" \
+                    else {"probe": {"center_probe": False}, "object": {"no_such_constraint": 1}}
+            elif kind == "cons-cat":
+                c["cons"] = {"probe": {"center_probe": False}, "objekt": {"tv_weight_xy": 0.5}}
+            elif kind == "opt-key":
+                c["opt"] = dict(c["opt"], **{rng.choice(["prob", "obj", "Object", "positions"]): {"type": "adam", "lr": 0.01}})
+            elif kind == "opt-type":
+                c["opt"] = dict(c["opt"])
+                c["opt"].pop(victim, None)
+                c["opt"][victim] = {"type": rng.choice(["lbfgs", "rmsprop", "None"]), "lr": 0.01}
+                poisoned.add(victim)
+            elif kind == "opt-kw":
+                c["opt"] = dict(c["opt"])
+                c["opt"].pop(victim, None)
+                c["opt"][victim] = {"type": rng.choice(["adam", "sgd"]), "lr": 0.01, "no_such_option": 1}
+                poisoned.add(victim)
+            elif kind == "sched-type":
+                c["sched"] = {okeys[0]: {"type": "exp", "gamma": 0.5}, victim: {"type": rng.choice(["cosine", "exponential", "step"])}} if victim != okeys[0] \
+                    else {victim: {"type": "cosine"}}
+            elif kind == "sched-key":
+                c["sched"] = {okeys[0]: {"type": "exp", "gamma": 0.5}, "objekt": {"type": "exp", "gamma": 0.5}}
+            elif kind == "sched-notype":
+                c["sched"] = {victim: {"gamma": 0.5}}
+            elif kind == "batch":
+                c["batch"] = rng.choice([0, -1, 0.4, "many"])
+            elif kind == "loss":
+                c["loss_type"] = rng.choice(["l3", "amp", "L2"])
+        elif parts[0] == "stage-add":
+            cand = [k for k in all_keys if k not in active]
+            if not cand:
+                cand = [rng.choice(all_keys)]
+            k = rng.choice(cand)
+            c = {"n": rng.randint(1, 2), "opt": {k: opt[k]}}        # only the new model: the others keep their optimizers
+            if rng.chance(0.3):
+                c["opt"] = dict({a: opt[a] for a in active}, **c["opt"])     # … or all of them re-created
+            if k not in active:
+                active.append(k)
+            poisoned.discard(k)
+            for a in list(c["opt"]):
+                poisoned.discard(a)
+        elif parts[0] == "stage-remove":
+            if active:
+                k = rng.choice(active)
+                active.remove(k)
+                c = {"n": rng.randint(1, 2), "opt": {k: {"type": "none"}}}
+                poisoned.discard(k)
+        elif parts[0] == "reset":
+            c = {"n": rng.randint(1, 2), "reset": True}
+            if rng.chance(0.4):
+                c["opt"] = {k: opt[k] for k in active} or None
+        elif parts[0] == "sched":
+            if active:
+                c = {"n": rng.randint(1, 2), "sched": {k: gen_sched(rng, rng.choice(SCHED_KINDS[1:])) for k in active if rng.chance(0.7)}}
+        if c is None:
+            continue
+        if was_poisoned and not c.get("bad") and (c.get("reset") or c.get("opt") or c.get("opt_list")):
+            # a rejected optimizer configuration stays stored in its model: reset_recon() and set_optimizers() meet it
+            # again, so every later reset / optimizer_params call may be rejected as well (until it is replaced)
+            c["bad"] = "after-rejected-config"
+        elif was_poisoned and c.get("bad") and (c.get("reset") or c.get("opt")):
+            c["bad"] += "+after-rejected-config"
+        was_poisoned = was_poisoned or bool(poisoned)
+        calls.append(c)
+        if c.get("bad") or rng.chance(0.6):
+            calls.append({"n": rng.randint(1, 2)})       # the caller carries on
+    if autograd is False:
+        for c in calls:
+            c["autograd"] = False
+    if rng.chance(0.2):
+        calls[-1]["device"] = "cpu"
+    cfg["calls"] = calls
+    return cfg
+
+
+def session_splits(cfg, every):
+    """quick tier: after every call of the history (incl. right after a rejected call) and after the first iteration;
+    thorough: every split point"""
+    if every:
+        return splits_of(cfg)
+    out = [[j, c["n"]] for j, c in enumerate(cfg["calls"])]
+    if cfg["calls"][0]["n"] >= 2:
+        out.insert(0, [0, 1])
+    return out
+
+
 def splits_of(cfg):
     return [[j, off] for j, c in enumerate(cfg["calls"]) for off in range(0, c["n"] + 1)]
 
 
 def cfg_sig(cfg, split, pinned):
     calls = cfg["calls"]
-    kinds = sorted({(k, v.get("type"), (v.get("lr") or {}).get("kind") if isinstance(v.get("lr"), dict) else "plain")
+    kinds = sorted({(k, str(v.get("type")), (v.get("lr") or {}).get("kind") if isinstance(v.get("lr"), dict) else "plain")
                     for c in calls for k, v in (c.get("opt") or {}).items()})
-    scheds = sorted({(k, v.get("type")) for c in calls for k, v in (c.get("sched") or {}).items()})
+    scheds = sorted({(k, str(v.get("type"))) for c in calls for k, v in (c.get("sched") or {}).items()})
     total = sum(c["n"] for c in calls)
     before = sum(c["n"] for c in calls[:split[0]]) + split[1]
     pos = "first" if before == 0 else ("last" if before == total else "inner")
     return (str(kinds), str(scheds), cfg["obj_type"], cfg["num_probes"], cfg["num_slices"], cfg["store"], cfg["raw"], cfg["learn_tilt"],
-            len(calls), pos, "pinned" if pinned else "natural")
+            len(calls), pos, "pinned" if pinned else "natural") + \
+        ((str([c.get("bad") or ("reset" if c.get("reset") else "opt" if (c.get("opt") or c.get("opt_list")) else "") for c in calls]),
+          split[0], bool(calls[0].get("autograd", True)), cfg.get("load_device")) if cfg.get("session") else ())
 
 
 # ---------------------------------------------------------------------------------------
@@ -232,11 +390,23 @@ def run_case(ctx, drv, cfg, split, pinned, scratch):
     total = sum(c["n"] for c in cfg["calls"])
     ctx.count()
     ctx.dist[f"stream:{stream}"] += 1
+    logs = {"uninterrupted": [], "source": [], "reload": [], "clone": []}
+    sess = {"pre": [], "post": []}        # session state after every call (saved object before the checkpoint, reloaded one after)
+    ids_box = [None]
+
+    def watch(tag):
+        def after(p, c, outcome):
+            view, ids_box[0] = cp.session_view(p, ids_box[0])
+            sess[tag].append(view)
+        return after if cfg.get("session") else None
     try:
-        U = cp.run_calls(cp.build(cfg), pre)
-        cp.run_calls(U, post, pin)
+        U = cp.run_calls(cp.build(cfg), pre, log=logs["uninterrupted"])
+        cp.run_calls(U, post, pin, log=logs["uninterrupted"])
         with cp.Trace() as tr:
-            B = cp.run_calls(cp.build(cfg), pre)
+            B = cp.build(cfg)
+            if cfg.get("session"):
+                sess["init"], ids_box[0] = cp.session_view(B)
+            cp.run_calls(B, pre, log=logs["source"], after=watch("pre"))
             n_pre_events = len(tr.events)
             views_B = cp.all_opt_views(B)
             obs_B0 = cp.observe(B)
@@ -252,12 +422,14 @@ def run_case(ctx, drv, cfg, split, pinned, scratch):
             obs_B = cp.observe(B)
             obs_R0, obs_C0 = cp.observe(R), cp.observe(C)
             shared = {"clone": cp.shared_state(C, B), "reload": cp.shared_state(R, B)}
-            cp.run_calls(R, post, pin)
+            if cfg.get("session"):
+                sess["reloaded"], ids_box[0] = cp.session_view(R)
+            cp.run_calls(R, post, pin, log=logs["reload"], after=watch("post"))
             # the saved/cloned object itself is continued too, before or after its clone (both orders over the
             # cases): a clone that shares training state with its source shows up in whichever runs second
             order = "clone-first" if (split[0] + split[1] + int(bool(pinned))) % 2 == 0 else "source-first"
             for X in ((C, B) if order == "clone-first" else (B, C)):
-                cp.run_calls(X, post, pin)
+                cp.run_calls(X, post, pin, log=logs["clone" if X is C else "source"])
             views_R_end = cp.all_opt_views(R)
     except Exception as e:  # the checkpoint protocol itself raised on a valid configuration
         import traceback
@@ -267,6 +439,11 @@ def run_case(ctx, drv, cfg, split, pinned, scratch):
         ctx.dist["raised"] += 1
         return
     gap = state_gap(views_B)
+    if cfg.get("session"):
+        for c, o in zip(pre + post, logs["uninterrupted"]):
+            if c.get("bad"):
+                ctx.dist[f"session:rejected:{c['bad']}={o}"] += 1
+        ctx.dist["session:optimizer_unbound_somewhere_in_history=%s" % any(v[k]["bound"] is False for v in sess["pre"] for k in cp.KEYS)] += 1
     ctx.dist[f"route:save_raw_data={raw_eff}" + (":dataset_auto_reloaded_from_file" if (not raw_eff and cfg.get("auto")) else "")] += 1
     ctx.dist[f"clone_path:{clone_path}"] += 1
     ctx.dist[f"state_gap:{gap}"] += 1
@@ -330,7 +507,8 @@ def run_case(ctx, drv, cfg, split, pinned, scratch):
         if bad:
             ctx.pred_fail(f"{name}-continue-differs{sfx}",
                           f"continuing after {name} differs from the uninterrupted run beyond {tol:g} (relative)", case,
-                          observed={"differs": bad, "got": cp.summary(o), "optimizer_state_at_save": _views_json(views_B)},
+                          observed={"differs": bad, "got": cp.summary(o), "optimizer_state_at_save": _views_json(views_B),
+                                    **({"call_outcomes": logs} if cfg.get("session") else {})},
                           required=cp.summary(obs_U))
 
     # --- correspondence with the Lean model on the recorded event trace
@@ -413,7 +591,7 @@ def trace_correspondence(ctx, drv, cp, case, tr, B, R, C, n_pre, views_B, views_
             if not st["inv"]:
                 raise HarnessError("model: record_iter_inv violated on a concrete instance")
     # (c) symbolic iteration machine: which parameter has state, in which order, after how many steps
-    for who, X, views_mid, views_end in (("reload", R, views_R, views_R_end),):
+    for who, X, views_mid, views_end in (("reload", R, views_R, views_R_end),) if not cfg.get("session") else ():
         steps_pre = [e for e in tr.events[:n_pre] if e["obj"] == id(B) and e["ev"] in ("step", "reset")]
         steps_post = [e for e in tr.of(X) if e["ev"] in ("step", "reset")]
         # optimizers are re-created by every reconstruct(optimizer_params=…): start the machine at the last such call
@@ -642,7 +820,7 @@ FORCED = [
 def run(ctx):
     import torch
     from qv.driver import Driver
-    torch.set_num_threads(max(1, min(4, int(os.environ.get("OMP_NUM_THREADS", "4")))))
+    torch.set_num_threads(1)     # tiny tensors: one thread is ~40x faster than four on a loaded machine (no OpenMP barriers), and deterministic
     scratch = os.environ.get("QVERIF_SCRATCH") or tempfile.mkdtemp(prefix="c05_")
     old_tmp = tempfile.tempdir
     tempfile.tempdir = scratch          # Ptychography.clone() stages its fallback file in tempfile.gettempdir()
@@ -664,6 +842,25 @@ def run(ctx):
             rrng = ctx.rng.fork(9)
             for j in range(ctx.n(4, 16)):
                 resave_case(ctx, gen_resave(rrng.fork(j), ["dir", "zip"][j % 2]), scratch)
+        # session histories (rejected calls, staged optimisation): pinned stream, every call of the history a split point
+        if only is None or os.environ.get("C05_SESSION"):
+            srng = ctx.rng.fork(11)
+            sess_budget = (45.0 if not ctx.thorough() else 300.0) * (2 if ctx.search_mode else 1)
+            only_s = {int(x) for x in os.environ["C05_SESSION"].split(",")} if os.environ.get("C05_SESSION") else None
+            for i in range(ctx.n(9, 60)):
+                cfg = gen_session(srng.fork(i), i, SESSION_FORCED[i] if i < len(SESSION_FORCED) else None)
+                if only_s is not None and i not in only_s:
+                    continue
+                ctx.dist["cfg:session"] += 1
+                ctx.dist[f"cfg:session:calls={len(cfg['calls'])}"] += 1
+                for c in cfg["calls"]:
+                    ctx.dist["session:call:" + (("bad:" + c["bad"]) if c.get("bad") else "reset" if c.get("reset") else
+                                                 "configure" if (c.get("opt") or c.get("opt_list") or c.get("sched")) else "continue")] += 1
+                for sp in session_splits(cfg, ctx.thorough()):
+                    run_case(ctx, drv, cfg, sp, True, scratch)
+                if time.time() - t0 > sess_budget + 25.0:
+                    ctx.dist["session_stopped_on_time_budget_after_cfgs"] = i + 1
+                    break
         for i in range(n_cfg):
             force = FORCED[i] if i < len(FORCED) else None
             cfg = gen_cfg(rng.fork(100 + i), i, force)
@@ -686,6 +883,10 @@ def run(ctx):
             natural_split = splits[rng.below(len(splits))]
             if only is not None and i not in only:
                 continue
+            if not ctx.thorough() and force is None and len(splits) > 4:
+                # quick tier, random configurations: first, after one iteration, last and the natural stream's split
+                # (the forced configurations and the thorough tier run every split point)
+                splits = [sp for n_, sp in enumerate(splits) if n_ in (0, 1, len(splits) - 1) or sp == natural_split]
             for sp in splits:
                 run_case(ctx, drv, cfg, sp, True, scratch)
                 if sp == natural_split or ctx.thorough():
@@ -703,7 +904,7 @@ def run(ctx):
 def replay(ctx, rep):
     import torch
     from qv.driver import Driver
-    torch.set_num_threads(max(1, min(4, int(os.environ.get("OMP_NUM_THREADS", "4")))))
+    torch.set_num_threads(1)     # tiny tensors: one thread is ~40x faster than four on a loaded machine (no OpenMP barriers), and deterministic
     case = rep.get("case") or {}
     if "cfg" not in case:
         print("replay file carries no case (tie-level failure); re-run ./check C05")
